@@ -40,6 +40,7 @@ def case_strategy(min_m=1):
         'kdef': st.integers(1, 3),
         'zmode': st.sampled_from(['consistent', 'arbitrary', 'zero']),
         'store': st.sampled_from(['c', 'c', 'fortran', 'views']),
+        'xmode': st.sampled_from(['random', 'random', 'zero']),      # an exactly zero prior mean is what the feedback filter passes
         'sub': st.integers(0, 2 ** 31 - 1),
     })
 
@@ -107,6 +108,8 @@ def build(case):
     R = L @ L.T
     R = 0.5 * (R + R.T) * (s0 * 10.0 ** case['rexp'] / (np.trace(R) / m))
     x = rng.randn(n) * np.sqrt(np.maximum(np.diag(P), 1e-300)) * 3
+    if case.get('xmode', 'random') == 'zero':
+        x = np.zeros(n)
     if case['zmode'] == 'consistent':
         S = S0 + R
         z = H @ x + np.linalg.cholesky(0.5 * (S + S.T) + 1e-300 * np.eye(m)) @ rng.randn(m)
@@ -163,7 +166,8 @@ def _labels(ctx, case, condS):
     ctx.label(f"n={'1-2' if case['n'] < 3 else '3-8' if case['n'] <= 8 else '9-20'}",
               f"m={case['m']}", f"P={case['pclass']}", f"H={case['hclass']}",
               f"R={case['rclass']}", f"rexp={'<0' if case['rexp'] < 0 else '>=0'}",
-              f"condS={'<1e4' if condS < 1e4 else '<1e8' if condS < 1e8 else '>=1e8'}", f"store={case.get('store', 'c')}")
+              f"condS={'<1e4' if condS < 1e4 else '<1e8' if condS < 1e8 else '>=1e8'}", f"store={case.get('store', 'c')}",
+              f"x={case.get('xmode', 'random')}")
 
 
 def run_posterior(case, ctx):
@@ -288,7 +292,66 @@ def run_order(case, ctx):
                         and tP <= 1e-6 * max(norm2(P), 1e-300))
 
 
+def scaled_strategy():
+    return st.fixed_dictionaries({
+        'base': case_strategy(),
+        'mode': st.sampled_from(['spread', 'two_level', 'z_only', 'x_only']),
+        'sseed': st.integers(0, 10 ** 6),
+    })
+
+
+def run_scaled(case, ctx):
+    """Badly SCALED but otherwise ordinary problems: states and observations rescaled by powers of two (state sigmas and
+    measurement sigmas over 2^-13..2^13 ~ 1e-4..1e4, i.e. R variances over ~1e-8..1e8 inside ONE correction, cond(S) up to 1e16+).
+    The posterior of the rescaled problem is the rescaled posterior; multiplication by powers of two is exact, so the
+    tolerance of the well-scaled problem applies unchanged (x4 for implementations that are not exactly scale-equivariant)."""
+    from pyins import kalman
+    base = dict(case['base'])
+    x, P, z, H, R = (np.array(a, dtype=float) for a in build(base))
+    n, m = len(x), len(z)
+    xr, Pr, nur, K, S = lg.posterior_mp(x, P, z, H, R)
+    tol_x, tol_P, tol_nu, condS = tolerances(x, P, z, H, R, K, S, nur)
+    if condS > 1e10:
+        ctx.inconclusive['condS>1e10'] += 1
+        return
+    rng = np.random.RandomState(case['sseed'])
+    mode = case['mode']
+    if mode == 'two_level':
+        ex = np.where(rng.rand(n) < 0.5, -13, 13)
+        ez = np.where(np.arange(m) % 2 == rng.randint(2), -13, 13)
+    else:
+        ex = rng.randint(-13, 14, n)
+        ez = rng.randint(-13, 14, m)
+    if mode == 'z_only':
+        ex = np.zeros(n, int)
+    if mode == 'x_only':
+        ez = np.zeros(m, int)
+    Dx, Dz = 2.0 ** ex, 2.0 ** ez
+    x2, P2, z2 = Dx * x, P * np.outer(Dx, Dx), Dz * z
+    H2, R2 = H * np.outer(Dz, 1.0 / Dx), R * np.outer(Dz, Dz)
+    S2 = H2 @ P2 @ H2.T + R2
+    ev = np.linalg.eigvalsh(0.5 * (S2 + S2.T))
+    cond2 = ev[-1] / max(ev[0], 1e-300) if ev[0] > 0 else np.inf
+    ctx.label(f'mode={mode}', f"m={m}", 'cond(S scaled)=' + ('<1e8' if cond2 < 1e8 else '<1e15' if cond2 < 1e15 else '>=1e15'))
+    snap = [a.copy() for a in (x2, P2, z2, H2, R2)]
+    xs2, Ps2, nus = ctx.sut(kalman.correct, x2, P2, z2, H2, R2)
+    for name, a, b in zip('xPzHR', (x2, P2, z2, H2, R2), snap):
+        ctx.check(bits_equal(a, b), f'input_modified:{name}', 'kalman.correct changed its input')
+    xs, Ps = xs2 / Dx, Ps2 / np.outer(Dx, Dx)
+    ex_, eP, en = np.abs(xs - xr).max(), np.abs(Ps - Pr).max(), np.abs(nus - nur).max()
+    ctx.stat('scaled_mean', ex_ / (4 * tol_x))
+    ctx.stat('scaled_cov', eP / (4 * tol_P))
+    ctx.stat('scaled_innovation', en / (4 * tol_nu))
+    info = f'state scale exponents {ex.tolist()} observation scale exponents {ez.tolist()} cond(S) {cond2:.2e}'
+    ctx.check(ex_ <= 4 * tol_x, 'scaled_posterior_mean', lambda: f'|x+ - ref| = {ex_:.3e} (well-scaled units) tol {4 * tol_x:.3e}; {info}')
+    ctx.check(eP <= 4 * tol_P, 'scaled_posterior_cov', lambda: f'|P+ - ref| = {eP:.3e} (well-scaled units) tol {4 * tol_P:.3e}; {info}')
+    ctx.check(en <= 4 * tol_nu, 'scaled_innovation', lambda: f'|nu - ref| = {en:.3e} tol {4 * tol_nu:.3e}; {info}')
+    ctx.mark_nontrivial(m >= 2 and cond2 >= 1e12 and tol_P <= 1e-6 * max(norm2(P), 1e-300))
+
+
 CLAUSES = [
+    Clause('scaled', scaled_strategy, run_scaled, quick=(240, 8), thorough=(16000, 16),
+           doc='power-of-two rescaling of states / observations (badly scaled S): rescaled posterior within the well-scaled tolerance'),
     Clause('posterior', case_strategy, run_posterior, quick=(480, 8), thorough=(32000, 16),
            doc='mean/cov/innovation == mp reference; symmetric PSD <= prior; whitening; purity'),
     Clause('order', blocks_strategy, run_order, quick=(160, 8), thorough=(8000, 16),
